@@ -97,3 +97,78 @@ CONTRACTS = [
         props=["C06"],
     ),
 ] + RULES
+
+
+# ---------------------------------------------------------------------------------------------- PostSelection.add, check_int (C05 / C07)
+PSEL = "obj:PostSelection{multi_rules:%s;__rules:glist;__modes_with_rules:set[int]}"
+
+
+def _pair(ex, name):
+    import z3
+    a, b = z3.Int(f"{name}_0"), z3.Int(f"{name}_1")
+    return (a, b)
+
+
+_pair.label = "tuple2"
+
+
+def replay_ps_add(inp):
+    import lightworks as lw
+    s = inp["self"]
+    modes, nph = inp["modes"], inp["n_photons"]
+    if isinstance(modes, dict) or isinstance(nph, dict):
+        return None
+    ps = lw.PostSelection(multi_rules=bool(s["multi_rules"]))
+    have = sorted(set(s.get("_PostSelection__modes_with_rules") or []))
+    if any(m < 0 for m in have) or len(have) > 6:
+        return None
+    for m in have:
+        ps.add(m, 0)
+    ml = list(modes) if isinstance(modes, (list, tuple)) else [modes]
+    nl = list(nph) if isinstance(nph, (list, tuple)) else [nph]
+    want_err = any(v < 0 for v in ml + nl) or (not s["multi_rules"] and any(m in have for m in ml))
+    n0 = len(ps.rules)
+    try:
+        ps.add(tuple(ml) if isinstance(modes, (list, tuple)) else modes, tuple(nl) if isinstance(nph, (list, tuple)) else nph)
+        raised = False
+    except ValueError:
+        raised = True
+    if raised != want_err:
+        return f"PostSelection(multi_rules={s['multi_rules']}) with rules on {have}: add({modes}, {nph}) {'raised' if raised else 'was accepted'}, expected {'ValueError' if want_err else 'acceptance'}"
+    if raised and (len(ps.rules) != n0 or ps.modes != have):
+        return f"a rejected add({modes}, {nph}) changed the post-selection"
+    if not raised and (len(ps.rules) != n0 + 1 or ps.rules[-1].as_tuple() != (tuple(ml), tuple(nl)) or set(ps.modes) != set(have) | set(ml)):
+        return f"add({modes}, {nph}) recorded {ps.rules[-1].as_tuple() if ps.rules else None}, modes {ps.modes}"
+    return None
+
+
+def enum_ps_add():
+    for multi in (False, True):
+        for have in ([], [0], [1, 2]):
+            for modes in (0, 1, -1, (0, 2), (1, 3), (3, -2)):
+                for nph in (0, 2, -1, (0, 1), (1, -1)):
+                    yield {"self": {"multi_rules": multi, "_PostSelection__modes_with_rules": have}, "modes": modes, "n_photons": nph}
+
+
+PS_ADD = Contract(
+    target="lightworks/sdk/utils/post_selection.py:PostSelection.add",
+    types={"self": [PSEL % "const:False", PSEL % "const:True"], "modes": ["int", _pair], "n_photons": ["int", _pair]},
+    requires=[],
+    modifies=["self.__rules", "self.__modes_with_rules"],
+    exc_frame=True,
+    ensures={
+        # exactly one rule is appended, holding the given modes and allowed photon totals as tuples
+        "one_rule_appended": "len(self.__rules) == old(len(self.__rules)) + 1",
+        # every mode of the new rule is now known to carry a rule, and nothing else changed in that set
+        "modes_registered": "forall(x, (x in self.__modes_with_rules) == (old(x in self.__modes_with_rules) or in_arg(modes, x)))",
+    },
+    raises={"ValueError": "any_negative(modes) or any_negative(n_photons) or (not self.multi_rules and any_known(self, modes))"},
+    defs={
+        "in_arg": lambda ex, m, x: __import__("z3").Or(*[x == t for t in (m if isinstance(m, tuple) else (m,))]),
+        "any_negative": lambda ex, m: __import__("z3").Or(*[t < 0 for t in (m if isinstance(m, tuple) else (m,))]),
+        "any_known": lambda ex, s, m: __import__("z3").Or(*[__import__("z3").Select(ex.deref(ex.heap[s.id].get("_PostSelection__modes_with_rules")).dom, t) for t in (m if isinstance(m, tuple) else (m,))]),
+    },
+    replay=replay_ps_add, props=["C05", "C07"],
+)
+PS_ADD.enum = enum_ps_add
+CONTRACTS.append(PS_ADD)
